@@ -55,6 +55,9 @@ type tagTracer struct {
 	// but before the message was finished validating
 	nearFirst map[string]map[peer.ID]struct{}
 
+	// the copy of each tracked message that entered validation
+	firstCopy map[string]*Message
+
 	// logger for tag tracer events
 	logger *slog.Logger
 }
@@ -71,6 +74,7 @@ func newTagTracer(cmgr connmgr.ConnManager) *tagTracer {
 		decayer:   decayer,
 		decaying:  make(map[string]connmgr.DecayingTag),
 		nearFirst: make(map[string]map[peer.ID]struct{}),
+		firstCopy: make(map[string]*Message),
 		isDirect:  func(p peer.ID) bool { return false },
 		logger:    logger, // Overridden in Start
 	}
@@ -204,6 +208,7 @@ func (t *tagTracer) DeliverMessage(msg *Message) {
 	// delete the delivery state for this message
 	t.Lock()
 	delete(t.nearFirst, t.idGen.ID(msg))
+	delete(t.firstCopy, t.idGen.ID(msg))
 	t.Unlock()
 }
 
@@ -229,6 +234,7 @@ func (t *tagTracer) ValidateMessage(msg *Message) {
 		return
 	}
 	t.nearFirst[id] = make(map[peer.ID]struct{})
+	t.firstCopy[id] = msg
 }
 
 func (t *tagTracer) DuplicateMessage(msg *Message) {
@@ -257,6 +263,15 @@ func (t *tagTracer) RejectMessage(msg *Message, reason string) {
 		fallthrough
 	case RejectValidationFailed:
 		delete(t.nearFirst, t.idGen.ID(msg))
+		delete(t.firstCopy, t.idGen.ID(msg))
+	case RejectBlacklstedPeer, RejectBlacklistedSource:
+		// The blacklist is checked again when a message comes back from validation. Only that
+		// copy ends the tracking; a copy rejected on arrival never entered validation.
+		id := t.idGen.ID(msg)
+		if t.firstCopy[id] == msg {
+			delete(t.nearFirst, id)
+			delete(t.firstCopy, id)
+		}
 	}
 }
 
